@@ -1509,21 +1509,36 @@ func engineC19Search(ctx *Ctx) {
 				ctx.R.Path(cfg.Name, 1)
 				var okPre, okPost vlib.Ranked
 				judge := func() (clause, detail string, raised bool) {
+					// EVERY answer given with the files in place - the first, and the same request asked again on the same object - has to be
+					// explained by one of the answers given without them
 					for _, ob := range obs {
-						for _, c := range ob.Post {
+						for k, c := range ob.Post {
+							ok := false
+							var cl0, det0 string
 							for _, rr := range ob.Pre {
 								cl, det, ra := c19PairActive(rr, c, alpha)
 								if cl == "" {
 									okPre, okPost = rr, c
-									return "", "", ra
+									raised = raised || ra
+									ok = true
+									break
 								}
-								if clause == "" {
-									clause, detail = cl, det
+								if cl0 == "" {
+									cl0, det0 = cl, det
 								}
+							}
+							if !ok {
+								if k > 0 {
+									det0 = fmt.Sprintf("(request asked for the %d. time on one object) %s", k+1, det0)
+								}
+								return cl0, det0, raised
+							}
+							if k > 0 {
+								ctx.R.Path("active-repeated-answers-checked", 1)
 							}
 						}
 					}
-					return
+					return "", "", raised
 				}
 				clause, detail, raised := judge()
 				if clause != "" {
